@@ -2105,6 +2105,11 @@ pub fn gen_control_flow(rng: &mut Rng, avoid: &Avoid) -> Scenario {
                 main.push(g.st(StmtKind::Fail(k)));
             }
         }
+        if g.f.gosub && g.rng.chance(1, 12) {
+            // the handler is left by RETURN: it takes the GOSUB of the interrupted code
+            // (error 3 inside the handler when there is none)
+            main.push(g.st(StmtKind::Return(None)));
+        }
         if g.rng.chance(1, 6) {
             // resume from inside a GOSUB routine of the handler
             main.push(g.st(StmtKind::Gosub("HG1".into())));
